@@ -1,6 +1,7 @@
 package main
 
 import (
+	"bytes"
 	stdjson "encoding/json"
 	"flag"
 	"fmt"
@@ -360,7 +361,16 @@ func jsonvecMain(args []string) int {
 							if md.useTail {
 								raw = exact(append(append([]byte{}, v.raw...), tail...))
 							}
-							m := mimetype.Detect(raw)
+							var m *mimetype.MIME
+							if k%3 == 0 { // a third of the vectors go through the reader entry point
+								var rerr error
+								m, rerr = mimetype.DetectReader(bytes.NewReader(raw))
+								if rerr != nil {
+									continue
+								}
+							} else {
+								m = mimetype.Detect(raw)
+							}
 							atomic.AddInt64(&detections, 1)
 							cls, ex := nodes.classOf(m)
 							if ex {
